@@ -1,7 +1,7 @@
 """C07 bounded run-time contract (labelled bounded): xsi:type, substitution, nil against a reference decision procedure written from
 Structures 3.3.4 (Element Locally Valid), 3.4.6 (Type Derivation OK) and 3.3.6 (substitution groups).
 
-Type graph B <- E1 <- E2 (extension), B <- R1 (restriction), with abstract / block flags on every type, nillable / abstract / block on
+Type graph B <- E1 <- E2 (extension), B <- R1 (restriction), E1 <- R2 (restriction of an extension), R1 <- X2 (extension of a restriction), with abstract / block flags on every type, nillable / abstract / block on
 the element, blockDefault on the schema; every xsi:type x nil flag x content variant.  Substitution: head h with members m1 (type E1) and
 m2 (substituting m1, type E2), block='substitution' / 'extension' on the head, abstract members.  Exhaustive over the flag products that
 fit the budget (quick: a seeded quarter).
@@ -10,7 +10,10 @@ import itertools, random
 from .common import pmap, result, part
 from .C01 import _cls
 XS = 'xmlns:xs="http://www.w3.org/2001/XMLSchema"'; XSI = 'xmlns:xsi="http://www.w3.org/2001/XMLSchema-instance"'
-TYPES = {'B': (None, None, ['a']), 'E1': ('B', 'extension', ['a', 'b']), 'E2': ('E1', 'extension', ['a', 'b', 'c']), 'R1': ('B', 'restriction', ['a'])}
+TYPES = {'B': (None, None, ['a']), 'E1': ('B', 'extension', ['a', 'b']), 'E2': ('E1', 'extension', ['a', 'b', 'c']), 'R1': ('B', 'restriction', ['a']),
+         # mixed chains: a restriction of an extension and an extension of a restriction (a blocked step may be any step of the chain)
+         'R2': ('E1', 'restriction', ['a', 'b']), 'X2': ('R1', 'extension', ['a', 'd'])}
+SAME_CONTENT = {'R1': 'B', 'R2': 'E1'}
 BLK = [None, '', 'extension', 'restriction', '#all']       # '' = an explicit empty attribute, which overrides blockDefault
 
 
@@ -47,7 +50,7 @@ def ref_valid(tflags, eflags, bd, xsi_type, nil, content_for):
         gov = xsi_type
     if tflags.get(gov, {}).get('abstract') == 'true': return False
     if nil: return eflags.get('nillable') == 'true' and content_for is None
-    want = 'B' if gov == 'R1' else gov
+    want = SAME_CONTENT.get(gov, gov)
     return content_for == want
 
 
@@ -80,9 +83,9 @@ def eval_config(args):
     try: s = _cls(ver)(f'<xs:schema {XS}' + (f' blockDefault="{bd}"' if bd else '') + f'>{types_xml(tflags)}<xs:element name="e" type="B"{eattrs}/></xs:schema>')
     except xmlschema.XMLSchemaException: return dict(cases=0, bad=[])
     bad = []; n = 0
-    for xt in [None, 'B', 'E1', 'E2', 'R1', 'Nope']:
+    for xt in [None, 'B', 'E1', 'E2', 'R1', 'R2', 'X2', 'Nope']:
         for nil in (False, True):
-            for cf in [None, 'B', 'E1', 'E2']:
+            for cf in [None, 'B', 'E1', 'E2', 'X2']:
                 n += 1
                 d = doc(xt, nil, cf)
                 try: got = s.is_valid(d)
